@@ -204,18 +204,20 @@ func (n *orderedPodNsLister) Get(name string) (*v1.Pod, error) {
 type syCrash struct{ at string }
 
 type syWorld struct {
-	mu      sync.Mutex
-	log     []string
-	count   map[string]int
-	faults  map[string]string
-	written *apps.StatefulSetStatus
-	creates []string // name@revision-label of every pod create issued
-	kube    *kubefake.Clientset
-	pc      *pcfake.Clientset
-	ctl     *sts.StatefulSetController
-	cached  *apps.StatefulSet
-	cpods   []*v1.Pod
-	gone    bool // the set no longer exists in the API: a status write answers NotFound
+	mu         sync.Mutex
+	log        []string
+	count      map[string]int
+	faults     map[string]string
+	written    *apps.StatefulSetStatus
+	creates    []string  // name@revision-label of every pod create issued
+	stAttempts []string  // the status carried by every status-write attempt of this sync, failed ones included
+	created    []*v1.Pod // the pod objects submitted by the creates of this sync
+	kube       *kubefake.Clientset
+	pc         *pcfake.Clientset
+	ctl        *sts.StatefulSetController
+	cached     *apps.StatefulSet
+	cpods      []*v1.Pod
+	gone       bool // the set no longer exists in the API: a status write answers NotFound
 	// graceful: a pod delete only stamps a deletion timestamp (the world engine removes the pod at its next settle)
 	graceful bool
 }
@@ -298,9 +300,17 @@ func (w *syWorld) react(a k8stesting.Action) (bool, runtime.Object, error) {
 	if a.GetVerb() == "create" && a.GetResource().Resource == "pods" {
 		if p, ok := a.(k8stesting.CreateAction).GetObject().(*v1.Pod); ok {
 			w.creates = append(w.creates, p.Name+"@"+p.Labels[kubeapps.StatefulSetRevisionLabel])
+			w.created = append(w.created, p.DeepCopy())
 		}
 	}
 	w.mu.Unlock()
+	if key == "updatestatus" {
+		if s, ok := a.(k8stesting.UpdateAction).GetObject().(*apps.StatefulSet); ok {
+			w.mu.Lock()
+			w.stAttempts = append(w.stAttempts, fmtStatus(&s.Status))
+			w.mu.Unlock()
+		}
+	}
 	if bad {
 		if kind == "crash" {
 			panic(syCrash{key}) // the process dies right before this call reaches the API
@@ -520,6 +530,29 @@ func buildSyWorld(c *syCase) *syWorld {
 	return w
 }
 
+// tplBad counts the created pods whose template (image) is not the one recorded by the revision their label names.
+func (w *syWorld) tplBad(c *syCase) int {
+	bad := 0
+	for _, p := range w.created {
+		obj, err := w.kube.Tracker().Get(schema.GroupVersionResource{Group: "apps", Version: "v1", Resource: "controllerrevisions"}, rcNS, p.Labels[kubeapps.StatefulSetRevisionLabel])
+		if err != nil {
+			continue
+		}
+		rev, ok := obj.(*kubeapps.ControllerRevision)
+		if !ok {
+			continue
+		}
+		for _, d := range []string{"A", "B", "X", "Y"} {
+			if string(rev.Data.Raw) == string(syPatchOf(c, d)) {
+				if len(p.Spec.Containers) != 1 || p.Spec.Containers[0].Image != "img-"+d {
+					bad++
+				}
+			}
+		}
+	}
+	return bad
+}
+
 func (w *syWorld) finalRevs(c *syCase) string {
 	dataOf := func(raw []byte) string {
 		for _, d := range []string{"A", "B", "X", "Y"} {
@@ -556,9 +589,8 @@ func (w *syWorld) finalRevs(c *syCase) string {
 	return strings.Join(out, ";")
 }
 
-
 func runSyncCase(c *syCase) (obs string, log []string) {
-	watchSwallowedPanics()
+	productionCrashSemantics()
 	w := buildSyWorld(c)
 	before := w.cached.DeepCopy()
 	var podsBefore []*v1.Pod
@@ -578,11 +610,6 @@ func runSyncCase(c *syCase) (obs string, log []string) {
 			out = "err"
 		}
 	}()
-	if msg, ok := swallowedPanic(); ok && out != "panic" {
-		// a panic inside a retry loop: swallowed here, fatal in production
-		out = "panic"
-		site = sanitize(msg)
-	}
 	mut := !reflect.DeepEqual(before, w.cached)
 	for i, p := range w.cpods {
 		if !reflect.DeepEqual(podsBefore[i], p) {
@@ -598,7 +625,14 @@ func runSyncCase(c *syCase) (obs string, log []string) {
 			cc = "nil"
 		}
 	}
-	obs = fmt.Sprintf("log=%s status=%s cc=%s revs=%s out=%s mut=%s creates=%s", strings.Join(w.log, ","), st, cc, w.finalRevs(c), out, b2s(mut), strings.Join(w.creates, ","))
+	// every attempt of one status write must carry the same status: a retry re-submits what the reconcile computed
+	stvar := false
+	for _, a := range w.stAttempts {
+		if a != w.stAttempts[0] {
+			stvar = true
+		}
+	}
+	obs = fmt.Sprintf("log=%s status=%s cc=%s revs=%s out=%s mut=%s creates=%s stvar=%s", strings.Join(w.log, ","), st, cc, w.finalRevs(c), out, b2s(mut), strings.Join(w.creates, ","), b2s(stvar)) + fmt.Sprintf(" tplbad=%d", w.tplBad(c))
 	if site != "" {
 		obs += " site=" + strings.ReplaceAll(site, " ", "_")
 	}
@@ -721,6 +755,7 @@ func genSyCase(rng *rand.Rand) *syCase {
 		r := syRev{number: 1 + rng.Intn(4), ctim: rng.Intn(3), sel: rng.Intn(6) != 0, marker: rng.Intn(5) == 0}
 		r.data = datas[weighted(rng, 45, 35, 20)]
 		r.owner = pick(rng, "s", "s", "s", "s", "s", "s", "n", "n", "n", "o", "o")
+		collisionLabel := ""
 		properName, properHash := syHashName(c, r.data, pick(rng, 0, 0, 0, cc0))
 		switch weighted(rng, 55, 25, 20) {
 		case 0:
@@ -728,7 +763,11 @@ func genSyCase(rng *rand.Rand) *syCase {
 		case 1:
 			r.name = fmt.Sprintf("%s-old%d", rcSetName, i)
 		default: // engineered collision: the name the controller will probe, holding possibly different data
-			r.name, _ = syHashName(c, c.tmpl, cc0+rng.Intn(2))
+			var h string
+			r.name, h = syHashName(c, c.tmpl, cc0+rng.Intn(2))
+			if rng.Intn(2) == 0 {
+				collisionLabel = h // a true hash collision: same name AND same hash label as the wanted revision, other data
+			}
 		}
 		if used[r.name] {
 			r.name = fmt.Sprintf("%s-dup%d", rcSetName, i)
@@ -743,6 +782,9 @@ func genSyCase(rng *rand.Rand) *syCase {
 			r.hash = pick(rng, "7", "8")
 		default:
 			r.hash = "notanumber"
+		}
+		if collisionLabel != "" {
+			r.hash = collisionLabel
 		}
 		if !r.sel && !r.marker && rng.Intn(2) == 0 {
 			r.marker = true
